@@ -62,7 +62,7 @@ FLOORS = {
             "law:merge-single": 10, "c-exclude": 20, "has-window": 20},
     "C25": {"exhausted": 100, "depth=2": 10, "associativity-compared": 10, "c-pin": 10, "c-atmost": 5, "has-within": 30},
     "C26": {"skeleton": 100, "scope-metamorphic": 20, "placement-distinguishes": 10, "sk-member-pin": 20,
-            "sk-combinator-pin": 10, "sk-member-atmost": 10, "sk-combinator-atmost": 10, "sk-preamble=True": 30,
+            "sk-combinator-pin": 10, "sk-member-atmost": 10, "sk-combinator-atmost": 10, "sk-both-atmost": 10, "sk-both-pin": 10, "sk-preamble=True": 30,
             "repetitions=3": 30, "exhausted": 100},
     "C27": {"iterate-loop": 200, "multi-update": 200, "with-request": 200, "gaps-in-numbering": 100, "fresh>maxvar": 100,
             "repeated-literal": 200, "support=0": 100, "wrapper:pycmsgen": 500, "wrapper:pyunigen": 500,
